@@ -329,7 +329,7 @@ func DeathBanner(stderr string) string {
 
 // TopLibFrame returns the first stack frame in stderr that lies in the GoSQLX module.
 func TopLibFrame(stderr string) string {
-	re := regexp.MustCompile(`github\.com/ajitpratap0/GoSQLX/[^\s(]+`)
+	re := regexp.MustCompile(`github\.com/ajitpratap0/GoSQLX/[\w./\-]+(?:\(\*?\w+\))?[\w.]*`)
 	m := re.FindString(stderr)
 	return m
 }
